@@ -763,4 +763,62 @@ def acceptResolve (s : Sig) (isRet : Bool) (sel : Sel) (path : List Step) : Outc
   | .err => if MustResolve s isRet sel path then "bad-error-on-existing-component" else "ok"
   | .panic => "bad-panic"
 
+/-! ## Components are values: navigation sessions
+
+A user holds on to `Component` values and derives several children from the
+same parent value, resolving them in any order.  A session is a list of commands
+on a store of component values (entry 0 is the selected variable; every
+`derive` appends the component it returns); components are immutable, so a
+`derive` never changes an existing entry. -/
+
+inductive TCmd
+  | derive (parent : Nat) (s : Step)   -- store[parent].<step>, appended to the store
+  | resolve (i : Nat)                  -- store[i].Resolve()
+  deriving Repr
+
+def stepE : Except Err Comp → Step → Except Err Comp
+  | .ok c, s => c.step s
+  | .error e, _ => .error e
+
+def resolveE : Except Err Comp → Except Err (Addr × Basic)
+  | .ok c => c.resolve
+  | .error e => .error e
+
+def navigateE : Except Err Comp → List Step → Except Err Comp
+  | .ok c, p => navigate c p
+  | .error e, _ => .error e
+
+structure TState where
+  store : List (Except Err Comp)
+  out : List (Except Err (Addr × Basic))
+
+def TState.exec (st : TState) : TCmd → TState
+  | .derive p s => { st with store := st.store ++ [stepE (st.store.getD p (.error .unknownVar)) s] }
+  | .resolve i => { st with out := st.out ++ [resolveE (st.store.getD i (.error .unknownVar))] }
+
+def runTreeFrom (st : TState) (cmds : List TCmd) : TState := cmds.foldl TState.exec st
+
+def runTree (root : Except Err Comp) (cmds : List TCmd) : TState := runTreeFrom ⟨[root], []⟩ cmds
+
+/-- The own path of every store entry (`none`: derived from an entry that does not exist). -/
+def nodePathsFrom (ps : List (Option (List Step))) : List TCmd → List (Option (List Step))
+  | [] => ps
+  | .derive p s :: cs => nodePathsFrom (ps ++ [(ps.getD p none).map (· ++ [s])]) cs
+  | .resolve _ :: cs => nodePathsFrom ps cs
+
+def nodePaths (cmds : List TCmd) : List (Option (List Step)) := nodePathsFrom [some []] cmds
+
+/-- The own path of the component each `resolve` command resolves, in command order. -/
+def resolvePathsFrom (ps : List (Option (List Step))) : List TCmd → List (Option (List Step))
+  | [] => []
+  | .derive p s :: cs => resolvePathsFrom (ps ++ [(ps.getD p none).map (· ++ [s])]) cs
+  | .resolve i :: cs => ps.getD i none :: resolvePathsFrom ps cs
+
+def resolvePaths (cmds : List TCmd) : List (Option (List Step)) := resolvePathsFrom [some []] cmds
+
+/-- The component at an own path (`none`: no such entry). -/
+def atPath (root : Except Err Comp) : Option (List Step) → Except Err Comp
+  | some p => navigateE root p
+  | none => .error .unknownVar
+
 end Avo.Layout
